@@ -48,4 +48,70 @@ theorem begin_meaning {env l₁ rest l body e} (hstd : StdSyn env) (hu : IsList 
   subst this
   exact ⟨bes, hbes, fun σ ρ v τ hb => Means.lambda_call (names := []) .nil hb.to_erase rfl⟩
 
+open Ruschm.Macro.Ex in
+set_option maxRecDepth 100000 in
+/-- `(begin 1 2)` in the interpreter's syntax environment evaluates to `2` -/
+example : ∃ e, XE [[], Interp.grammarScope] (lst [sy "begin", num 1, num 2]) e ∧ ∃ τ, Means {} 0 e (.num (.int 2)) τ := by
+  have hx : ∃ e, XE [[], Interp.grammarScope] (lst [sy "begin", num 1, num 2]) e := ⟨_, 300, rfl⟩
+  obtain ⟨e, hx⟩ := hx
+  obtain ⟨bes, hb, rule⟩ := begin_meaning stdSyn_default (l₁ := none) (l := none) (rest := lst [num 1, num 2])
+    (body := [num 1, num 2]) rfl (by simp) (by
+      intro b hb
+      simp only [List.mem_cons, List.mem_nil_iff, or_false] at hb
+      rcases hb with rfl | rfl <;> exact not_def_prim) hx
+  cases hb with
+  | cons h₁ t =>
+    cases t with
+    | cons h₂ t₂ =>
+      cases t₂
+      have e₁ := h₁.prim_inv; have e₂ := h₂.prim_inv
+      subst e₁ e₂
+      exact ⟨e, hx, _, rule {} 0 _ _ (.cons (Means.prim rfl) (.one (Means.prim rfl)))⟩
+
+/-! ## when, unless -/
+
+/-- `(when test form₁ … formₙ)`: the test is evaluated once; if its value is not `#f` the forms are
+evaluated in order (in a fresh empty child frame) and the value is the value of the last; if it is `#f`
+NO form is evaluated — the store is the one the test left — and the model's value is `Void`. -/
+theorem when_meaning {env l₁ rest l test body e} (hstd : StdSyn env) (hu : IsList rest (test :: body))
+    (hne : body ≠ []) (hnd : NoDefs ([] :: env) body) (hx : XE env (.pair (.sym "when" l₁) rest l) e) :
+    ∃ te bes, XE env test te ∧ All2 (XE ([] :: env)) body bes ∧
+      ∀ σ ρ tv σ₁, Means σ ρ te tv σ₁ →
+        (tv.truthy = true → ∀ v τ, MeansSeq σ₁.frames.size (σ₁.pushFrame ρ []) bes v τ → Means σ ρ e v τ) ∧
+        (tv.truthy = false → Means σ ρ e .void σ₁) := by
+  have h₁ := hx.expand_inv hstd.std (by decide) (fun fuel hf => at_loc (when_shape (isList_withLoc l hu) hne hf))
+  obtain ⟨te, ce, lc, hte, hce, hcase⟩ := h₁.if_inv (isList_ofList _ _) rfl
+  rcases hcase with ⟨_, rfl⟩ | ⟨a, r', ae, hr, _⟩
+  · rw [built_eq] at hce
+    obtain ⟨bes, hbes, rule⟩ := begin_meaning hstd (isList_ofList none body) hne hnd hce
+    exact ⟨te, bes, hte, hbes, fun σ ρ tv σ₁ ht =>
+      ⟨fun htv v τ hb => Means.cond_true ht htv (rule σ₁ ρ v τ hb), fun htv => Means.cond_void ht htv⟩⟩
+  · cases hr
+
+/-- `(unless test form₁ … formₙ)` (with `not` the native procedure): the test is evaluated once; if its
+value is `#f` the forms are evaluated in order and the value is the value of the last; otherwise NO form
+is evaluated and the model's value is `Void`. -/
+theorem unless_meaning {env l₁ rest l test body e} (hstd : StdSyn env) (hu : IsList rest (test :: body))
+    (hne : body ≠ []) (hnd : NoDefs ([] :: env) body) (hx : XE env (.pair (.sym "unless" l₁) rest l) e) :
+    ∃ te bes, XE env test te ∧ All2 (XE ([] :: env)) body bes ∧
+      ∀ σ ρ tv σ₁, σ.lookup ρ "not" = some (.builtin .not) → Means σ ρ te tv σ₁ →
+        (tv.truthy = false → ∀ v τ, MeansSeq σ₁.frames.size (σ₁.pushFrame ρ []) bes v τ → Means σ ρ e v τ) ∧
+        (tv.truthy = true → Means σ ρ e .void σ₁) := by
+  have h₁ := hx.expand_inv hstd.std (by decide) (fun fuel hf => at_loc (unless_shape (isList_withLoc l hu) hne hf))
+  obtain ⟨tne, ce, lc, htne, hce, hcase⟩ := h₁.if_inv (isList_ofList _ _) rfl
+  rcases hcase with ⟨_, rfl⟩ | ⟨a, r', ae, hr, _⟩
+  · obtain ⟨fe, aes, ln, hfe, haes, rfl⟩ := htne.call_inv (isList_ofList _ _)
+      (by intro s l' hs; cases hs; exact ⟨by decide, hstd.not_⟩)
+    have := hfe.sym_inv; subst this
+    cases haes with
+    | cons hte t =>
+      cases t
+      rename_i te
+      rw [built_eq] at hce
+      obtain ⟨bes, hbes, rule⟩ := begin_meaning hstd (isList_ofList none body) hne hnd hce
+      refine ⟨te, bes, hte, hbes, fun σ ρ tv σ₁ hnot ht => ⟨fun htv v τ hb => ?_, fun htv => ?_⟩⟩
+      · exact Means.cond_true (Means.not_call hnot ht) (by rw [htv]; rfl) (rule σ₁ ρ v τ hb)
+      · exact Means.cond_void (Means.not_call hnot ht) (by rw [htv]; rfl)
+  · cases hr
+
 end Ruschm.C05Meaning
